@@ -4,6 +4,8 @@ import Genshi.Model.PyParse
 import Genshi.Model.PyParseS
 import Genshi.Model.PyStmtX
 import Genshi.Model.PyScope
+import Genshi.Model.PyLeaves
+import Genshi.Model.PyLayout
 import Driver.PyWire
 namespace Driver.C13
 open Genshi Genshi.Py Genshi.Sexp Driver.PyWire
@@ -84,6 +86,38 @@ def handle : List Sexp → Option Sexp
       match ss.mapM decS with
       | none => some (.atom "unmodelled")
       | some body => some (.list [.atom "ok", encTree (freeGlobals body), encTree (scopeTree (xformS body))])
+  -- the leaf tokens of a tree in source order (`Model/PyLeaves.lean`; `outside` when the tree is
+  -- outside the domain `leafOK` / `leafOKB` of `leaves_in_order`)
+  | [.atom "leaves", t] =>
+      match decE t with
+      | none => some (.atom "unmodelled")
+      | some e =>
+        if leafOK e then some (.list [.atom "ok", .list ((leaves e).map encTok)]) else some (.atom "outside")
+  | [.atom "leavesS", .list ss] =>
+      match ss.mapM decS with
+      | none => some (.atom "unmodelled")
+      | some body =>
+        if leafOKB body then some (.list [.atom "ok", .list ((leavesB body).map encTok)]) else some (.atom "outside")
+  -- character level: `ASTCodeGenerator(tree).code` as a string (`Model/PyLayout.lean`: the writer), and
+  -- what the line-structure reader `retok` makes of it (depth + text of every logical line)
+  | [.atom "code", t] =>
+      match decE t with
+      | none => some (.atom "unmodelled")
+      | some e =>
+        match codeE e with
+        | none => some (.atom "raises")
+        | some cs => some (.list [.atom "ok", .str cs])
+  | [.atom "codeS", .list ss] =>
+      match ss.mapM decS with
+      | none => some (.atom "unmodelled")
+      | some body =>
+        match codeS body with
+        | none => some (.atom "raises")
+        | some cs =>
+          some (.list [.atom "ok", .str cs,
+            match retok cs with
+            | none => .atom "N"
+            | some ls => .list (ls.map fun p => .list [.atom (toString p.1), .str p.2])])
   | _ => none
 
 end Driver.C13
